@@ -329,6 +329,11 @@ func init() {
 			return "", err
 		}
 		sb.WriteString(r10)
+		r12, err := c01Round12Facts(repo)
+		if err != nil {
+			return "", err
+		}
+		sb.WriteString(r12)
 		return sb.String(), nil
 	}})
 }
